@@ -1153,6 +1153,16 @@ def big_oracle(prop, ctx, tr, prefix_results=None):
         else:
             res['skipped'] = 'c02-class:error'
         return res
+    if kind == 'infeasible' and not any(I.plq) and not any(I.llq) and \
+            prop in ('C02', 'C05', 'C09', 'C01', 'C03', 'C04', 'C11'):
+        # completeness without enumeration: with all lower quotas zero the
+        # empty matching is valid, and a (weakly) stable matching of an
+        # SPA-ST instance always exists (break the ties, run SPA-student)
+        res['violations'].append(
+            ('wrong-infeasible-under-stab' if ctx.stab else
+             'wrong-infeasible', 'no-lower-quotas',
+             {'big': True, 'stab': ctx.stab, 'pc': ctx.pc}))
+        return res
     if kind != 'optimal':
         res['skipped'] = 'big-lane:not-optimal(%s)' % kind
         return res
